@@ -418,6 +418,30 @@ def pick_smat(rng, k, max_det=8):
     return rng.choice(mats)
 
 
+
+def nac_factor_phys(ph, unit_factor):
+    """`unit_conversion * 4 pi / |V|` with the PHYSICAL (absolute) volume of the primitive cell, from the cell matrix."""
+    return unit_factor * 4.0 * np.pi / abs(np.linalg.det(np.array(ph.primitive.cell, dtype="double")))
+
+
+def atom_map(cell_a, cell_b):
+    """perm with cell_b atom perm[i] at the Cartesian position of cell_a atom i modulo the (common) lattice."""
+    la = np.array(cell_a.cell, dtype="double")
+    fa = np.array(cell_a.scaled_positions)
+    fb = (np.array(cell_b.scaled_positions) @ np.array(cell_b.cell, dtype="double")) @ np.linalg.inv(la)
+    perm = []
+    for i in range(len(fa)):
+        d = fb - fa[i]
+        d -= np.rint(d)
+        k = int(np.argmin(np.abs(d).max(axis=1)))
+        if np.abs(d[k]).max() > 1e-6 or cell_a.symbols[i] != cell_b.symbols[k]:
+            raise RuntimeError("relabelled cell: atom %d has no partner" % i)
+        perm.append(k)
+    if sorted(perm) != list(range(len(fa))):
+        raise RuntimeError("relabelled cell: atom map is not a permutation")
+    return np.array(perm)
+
+
 def rand_q(rng, kind):
     if kind == "gamma":
         return np.zeros(3)
@@ -477,7 +501,7 @@ def main(run):
         "and the supercell has images (ns > np). Oracle: 3-level Richardson central differences (h=4e-4 1/Angstrom) of the "
         "implementation's own D(q) vs analytic derivative (%g*scale); group velocities vs central differences of the reported "
         "frequencies for modes with f > %g THz and band gap > %g THz, plus designated long-wavelength points (|q| = 0.002, 0.004, 0.008 r.l.u. on rocksalt, bct, hcp; modes farther than 1.2e-4 THz from every other band and above the 1e-4 THz cutoff, adaptive step); PhonopyGruneisen on uniformly scaled force constants vs "
-        "closed form, and mesh symmetry on/off moments. Sequences: DynamicalMatrix(Wang) + DerivativeOfDynamicalMatrix + GroupVelocity evaluated, the dynamical matrix mutated through its public nac_params setter, the SAME objects evaluated again and compared with the numerical derivative of the current D(q), lang='Py', freshly built objects and the model fed with the current parameters." % (TOL_NUM, FMIN, GAP))
+        "closed form, and mesh symmetry on/off moments. Description invariance: per run 2 (thorough 4) relabellings of the lattice vectors (gen.UNIMODULAR, at least one det -1 = left-handed, with and without Wang NAC): derivative oracle and model correspondence on the relabelled description (physical volume |det| in the NAC factor), frequencies, Cartesian group velocities of non-degenerate bands and mode Grueneisen parameters at the same Cartesian q equal between descriptions. Sequences: DynamicalMatrix(Wang) + DerivativeOfDynamicalMatrix + GroupVelocity evaluated, the dynamical matrix mutated through its public nac_params setter, the SAME objects evaluated again and compared with the numerical derivative of the current D(q), lang='Py', freshly built objects and the model fed with the current parameters." % (TOL_NUM, FMIN, GAP))
     run.cov["trusted_base"] = [
         "Lean 4.33 kernel; Mathlib v4.33; axioms per theorem in coverage.theorems",
         "hand-written models Model/DerivDynMat.lean, Model/Gruneisen.lean tied to c/derivative_dynmat.c, derivative_dynmat.py, "
@@ -535,7 +559,7 @@ def main(run):
         reclat = np.array(np.linalg.inv(ph.primitive.cell), dtype="double", order="C")
         nac = None
         if isinstance(dm, DynamicalMatrixNAC) and np.linalg.norm(reclat @ qpt) >= 1e-5:
-            nac = (np.array(dm.born), np.array(dm.dielectric_constant), reclat @ qpt, dm.nac_factor * npa / len(ph.supercell))
+            nac = (np.array(dm.born), np.array(dm.dielectric_constant), reclat @ qpt, nac_factor_phys(ph, nacp["factor"]) * npa / len(ph.supercell))
         info = dict(cell=name, smat=np.array(smat).tolist(), fc=fckind, q=qpt.tolist(), nac=with_nac)
         lines.append(request_ddmall(spec, ph, ddm, np.array(dm.force_constants), qpt, nac))
         meta.append(("ddmall", info, d, dict(C=dC, Py=dP, D=D)))
@@ -915,6 +939,99 @@ def main(run):
                     run.violation("Phonopy.run_band_structure(with_group_velocities=True)", "multi-segment-path",
                                   "group velocities at q=%s of segment %d differ from the single-q result by %.3g" % (sg[iq].tolist(), isg, np.abs(bgv[isg][iq] - g1).max()), info)
 
+    # ---------------- description invariance: the same crystal with relabelled (also LEFT-HANDED) lattice vectors
+    # (i) the derivative oracles run ON the relabelled description; (ii) physical results equal those of the original one
+    det_minus = ["swap12", "negate3", "invert"]
+    rl_keys = [rng.choice(det_minus), rng.choice(["shear", "cyclic"] + det_minus)] + ([rng.choice(list(gen.UNIMODULAR))] * 2 if thorough else [])
+    for ir_, key in enumerate(rl_keys):
+        name = rng.choice(["nacl_prim", "cscl", "hcp", "mono_P", "bct", "zincblende_prim"])
+        cell = make_cell(name)
+        smat = rng.choice([np.diag([2, 2, 2]), np.diag([2, 2, 1]), np.diag([2, 1, 2]), np.array([[2, 1, 0], [0, 2, 0], [0, 0, 1]])])
+        if len(cell) * int(round(abs(np.linalg.det(smat)))) > 16:
+            smat = np.diag([2, 2, 1])
+        M_ = np.array(gen.UNIMODULAR[key])
+        cell2, qmap, smapf = gen.relabelled_cell(cell, M_)
+        with_nac = ir_ % 2 == 0  # the first (always det -1) case carries the Wang term
+        nacp = rand_nac(rng, len(cell)) if with_nac else None
+        objs = []
+        for (c_, s_) in ((cell, smat), (cell2, smapf(smat))):
+            trip, vols = [], []
+            for sc_ in (1.0, 1.011, 0.992):
+                cc = c_.copy()
+                cc.cell = c_.cell * sc_ ** (1.0 / 3)
+                p_ = Phonopy(cc, supercell_matrix=s_, primitive_matrix="P", log_level=0, is_symmetry=False)
+                if nacp is not None:
+                    p_.nac_params = nacp
+                p_.force_constants = gen.pair_fc(p_.supercell, 4.5 * sc_ ** (1.0 / 3))  # central pair potential: the same physical model
+                trip.append(p_)
+                vols.append(abs(p_.primitive.volume))
+            objs.append((trip, vols))
+        (tA, vA), (tB, vB) = objs
+        phA, phB = tA[0], tB[0]
+        qA = np.array([rng.uniform(-0.45, 0.45) for _ in range(3)])
+        qB = qmap(qA)
+        info = dict(cell=name, smat=np.array(smat).tolist(), relabelling=key, det=int(round(np.linalg.det(M_))), nac=with_nac, q=qA.tolist(), q_relabelled=qB.tolist(),
+                    signed_volume_relabelled=float(phB.primitive.volume))
+        run.case(("relabel", name, np.array(smat).tolist(), key, with_nac, qA.tolist()), nontrivial=True)
+        run.count("relabelled description: %s (det %+d)%s" % (key, int(round(np.linalg.det(M_))), ", Wang NAC" if with_nac else ""))
+        # (i) the property's own oracle on the relabelled description
+        dmB = phB.dynamical_matrix
+        dobj = DerivativeOfDynamicalMatrix(dmB)
+        dobj.run(qB, lang="C")
+        dC = dobj.d_dynamical_matrix.copy()
+        dobj.run(qB, lang="Py")
+        dP = dobj.d_dynamical_matrix.copy()
+        num = numeric_dD(dmB, qB, phB.primitive.cell)
+        sc = max(1e-3, np.abs(num).max())
+        run.count("oracle-relabelled-derivative", section="oracle")
+        for lang, A_, site in (("C", dC, SITE_C), ("Py", dP, SITE_PY)):
+            if np.abs(num - A_).max() > TOL_NUM * sc:
+                run.violation(site, "relabelled-description" + ("-left-handed" if info["det"] < 0 else ""),
+                              "analytic dD/dq (lang=%s) differs from the numerical derivative of D(q) by %.3g (scale %.3g) on a relabelled description" % (
+                                  lang, np.abs(num - A_).max(), sc), info)
+        npaB = len(phB.primitive)
+        reclatB = np.array(np.linalg.inv(phB.primitive.cell), dtype="double", order="C")
+        nacm = None
+        if with_nac:
+            nacm = (np.array(dmB.born), np.array(dmB.dielectric_constant), reclatB @ qB, nac_factor_phys(phB, nacp["factor"]) * npaB / len(phB.supercell))
+        dmB.run(qB)
+        lines.append(request_ddmall(spec, phB, dobj, np.array(dmB.force_constants), qB, nacm))
+        meta.append(("ddmall", info, 3 * npaB, dict(C=dC, Py=dP, D=dmB.dynamical_matrix.copy())))
+        # (ii) the same physical quantities in both descriptions
+        phA.run_qpoints([qA], with_group_velocities=True)
+        phB.run_qpoints([qB], with_group_velocities=True)
+        fa, ga = phA.get_qpoints_dict()["frequencies"][0], phA.get_qpoints_dict()["group_velocities"][0]
+        fb, gb = phB.get_qpoints_dict()["frequencies"][0], phB.get_qpoints_dict()["group_velocities"][0]
+        run.count("oracle-relabelled-vs-original", section="oracle")
+        if np.abs(fa - fb).max() > 1e-8 * max(1.0, np.abs(fa).max()):
+            run.violation("Phonopy.run_qpoints", "description-dependence" + ("-left-handed" if info["det"] < 0 else ""),
+                          "frequencies at the same Cartesian q differ between two descriptions of the same crystal by %.3g THz (%s vs %s)" % (
+                              np.abs(fa - fb).max(), fa.tolist(), fb.tolist()), info)
+        else:
+            for nu in range(len(fa)):
+                gaps = np.abs(np.delete(fa, nu) - fa[nu]) if len(fa) > 1 else np.array([1e9])
+                if fa[nu] < FMIN or gaps.min() < GAP:
+                    continue
+                if np.abs(ga[nu] - gb[nu]).max() > 1e-7 * max(1.0, np.abs(ga[nu]).max()):
+                    run.violation("Phonopy.run_qpoints(with_group_velocities=True)", "description-dependence" + ("-left-handed" if info["det"] < 0 else ""),
+                                  "Cartesian group velocity of band %d differs between two descriptions of the same crystal: %s vs %s" % (nu, ga[nu].tolist(), gb[nu].tolist()), info)
+                    break
+        # mode Grueneisen parameters at the same Cartesian q
+        q2A = qA + np.array([0.03, -0.02, 0.05])
+        gsets = []
+        for (trip, qs_) in ((tA, [qA, q2A]), (tB, [qB, qmap(q2A)])):
+            g_ = PhonopyGruneisen(trip[0], trip[1], trip[2])
+            g_.set_band_structure([np.array(qs_)])
+            gsets.append(g_.get_band_structure())
+        gamA, gamB = gsets[0][4][0], gsets[1][4][0]
+        frA = gsets[0][2][0]
+        okm = np.abs(frA[0]) > 1e-2
+        run.count("oracle-relabelled-gruneisen", section="oracle")
+        if np.abs(np.sort(gamA[0][okm]) - np.sort(gamB[0][np.abs(gsets[1][2][0][0]) > 1e-2])).max() > 1e-6 * max(1.0, np.abs(gamA[0][okm]).max()):
+            run.violation("PhonopyGruneisen.get_band_structure", "description-dependence" + ("-left-handed" if info["det"] < 0 else ""),
+                          "mode Grueneisen parameters at the same Cartesian q differ between two descriptions: %s vs %s" % (
+                              np.sort(gamA[0]).tolist(), np.sort(gamB[0]).tolist()), info)
+
     # ---------------- compact force constants; q_direction argument (Wang NAC)
     from phonopy.harmonic.force_constants import full_fc_to_compact_fc
 
@@ -978,7 +1095,7 @@ def main(run):
                     run.violation(SITE_C, "q_direction", "compiled and Python derivative differ by %.3g (scale %.3g) when q_direction is given" % (
                         np.abs(c1 - p1).max(), sc1), inf2)
                 dmn = ph.dynamical_matrix
-                nac = (np.array(dmn.born), np.array(dmn.dielectric_constant), reclat @ qd, dmn.nac_factor * len(ph.primitive) / len(ph.supercell))
+                nac = (np.array(dmn.born), np.array(dmn.dielectric_constant), reclat @ qd, nac_factor_phys(ph, nacp["factor"]) * len(ph.primitive) / len(ph.supercell))
                 lines.append(request_ddmall(spec, ph, dF, np.array(dmn.force_constants), qq, nac))
                 meta.append(("ddmall", inf2, 3 * len(ph.primitive), dict(C=c1, Py=p1, D=None)))
         done += 1
@@ -1060,7 +1177,7 @@ def main(run):
                         gv_r[nu].tolist(), grad[nu].tolist(), nu), info)
                     break
             # the model, fed with the CURRENT parameters of the dynamical matrix
-            nac = (np.array(dm.born), np.array(dm.dielectric_constant), reclat @ qpt, dm.nac_factor * npa / len(ph.supercell))
+            nac = (np.array(dm.born), np.array(dm.dielectric_constant), reclat @ qpt, nac_factor_phys(ph, 14.399652) * npa / len(ph.supercell))
             dm.run(qpt)
             lines.append(request_ddmall(spec, ph, ddm_obj, np.array(dm.force_constants), qpt, nac))
             meta.append(("ddmall", info, 3 * npa, dict(C=dC, Py=dP, D=dm.dynamical_matrix.copy())))
